@@ -185,7 +185,7 @@ pub fn run(tier: Tier, rep: &mut Report) -> (String, String) {
     let th = n_threads(tier);
     let mut bounds = String::new();
     // (a) pattern families
-    let (hl, nl) = tier.pick((7, 3), (9, 4), (2, 1));
+    let (hl, nl) = tier.pick((8, 3), (9, 4), (2, 1));
     let hs = strings_over(&["a", "b", "ñ"], hl);
     let ns = strings_over(&["a", "b", "ñ"], nl);
     bounds += &format!("strings over [a,b,ñ]: inputs <= {hl} atoms ({}), patterns <= {nl} atoms ({}); ", hs.len(), ns.len());
